@@ -2,7 +2,7 @@
 import ast
 import copy as _copy
 
-from ..core import (U, walk_local, calls_in, call_name, const, NOCONST, params, stores_in, single_def, expand,
+from ..core import (TU, U, walk_local, calls_in, call_name, const, NOCONST, params, stores_in, single_def, expand,
                     walk_stmts, arg_for, kwarg, path_conditions, enclosing_stmt_chain, dotted)
 from ..lin import lin, Lin
 from . import c03, c08
@@ -383,7 +383,7 @@ def r2_slice_tiling(ctx, rule):
     qual = DET + 'keyboard_walk.py::detect_keyboard_walk'
     fn = ctx.fn(qual)
     S = Strings(fn)
-    txt = U(fn)
+    txt = TU(fn)
     n += 1
     facts = {}
     site1 = "if len(cur_combo) != index:\n    section_list.append((password[0:index - len(cur_combo)], None))" in txt.replace('                        ', '    ').replace('                    ', '') \
@@ -532,7 +532,7 @@ def r4_multiword_parts(ctx, rule):
     prets = [U(r.value) for r in walk_local(pfn) if isinstance(r, ast.Return)]
     facts['parse_returns'] = prets
     good = {'(False, [%s])' % a, '(True, [%s])' % a, '(True, result)'}
-    if not set(prets) <= good or 'result = self._identify_multi(%s)' % a not in U(pfn):
+    if not set(prets) <= good or 'result = self._identify_multi(%s)' % a not in TU(pfn):
         ok = False
         ctx.bad(rule, pq, 'parse returns %s' % prets, 'parse returns the whole string or the parts found for exactly that string', facts, pfn)
     # whole word first
@@ -550,7 +550,7 @@ def r5_totality(ctx, rule):
     q = DET + 'other_detection.py::other_detection'
     fn = ctx.fn(q)
     L = params(fn)[0]
-    txt = U(fn)
+    txt = TU(fn)
     loops = [s for s in fn.body if isinstance(s, ast.While)]
     floops = [s for s in fn.body if isinstance(s, ast.For)]
     ok = True
@@ -805,7 +805,7 @@ def r8_constants(ctx, rule):
         ok = False
         ctx.bad(rule, q, 'keyboard run threshold default=%s overrides=%s tests=%s' % (facts['default'], overrides, [U(t) for t in tests]),
                 'keyboard segments are walks of at least four keys: len(run) >= threshold with threshold >= 4', facts, fn)
-    if 'interesting_keyboard(cur_combo)' not in U(fn):
+    if 'interesting_keyboard(cur_combo)' not in TU(fn):
         ok = False
         ctx.bad(rule, q, 'class-mix test missing', 'a walk must mix character classes', facts, fn)
     if ok:
@@ -813,7 +813,7 @@ def r8_constants(ctx, rule):
     # year: 4 characters after prefix 19/20
     yq = DET + 'year_detection.py::detect_year'
     yfn = ctx.fn(yq)
-    txt = U(yfn)
+    txt = TU(yfn)
     yok = "year_prefix = ['19', '20']" in txt and "(working_string[start_index:start_index + 4], 'Y1')" in txt \
         and 'working_string[start_index + 2].isdigit()' in txt and 'working_string[start_index + 3].isdigit()' in txt \
         and 'working_string[start_index - 1].isdigit()' in txt and 'working_string[start_index + 4].isdigit()' in txt \
@@ -845,7 +845,7 @@ def r8_constants(ctx, rule):
     # context: slice [i : i+len(r)] of the find result of an element of the fixed list
     cq = DET + 'context_sensitive_detection.py::detect_context_sensitive'
     cfn = ctx.fn(cq)
-    txt = U(cfn)
+    txt = TU(cfn)
     cok = 'for replacement in context_sensitive_replacements' in txt and 'start_index = working_string.find(replacement)' in txt \
         and "(working_string[start_index:start_index + len(replacement)], 'X1')" in txt
     if not cok:
@@ -1137,13 +1137,22 @@ def r16_nonempty_is_not_long_enough(ctx, rule):
         ctx.ok(rule, 'lib_trainer/detection_rules/', 'no constant index is justified by a mere non-emptiness test (%d sites)' % n)
 
 
+def _shared_rule(mod, name, **kw):
+    def run(ctx, rule):
+        import importlib
+        return getattr(importlib.import_module('sa.props.' + mod), name)(ctx, rule, **kw)
+    return run
+
+
 def rules(tier):
     return [('C05.R1', r1_splice_discipline), ('C05.R2', r2_slice_tiling), ('C05.R4', r4_multiword_parts),
             ('C05.R5', r5_totality), ('C05.R6', r6_counter_pairing), ('C05.R7', r7_index_space), ('C05.R8', r8_constants),
             ('C05.R10', r10_keyboard_single_layout),
             ('C05.R11', r11_multiword_training_runs), ('C05.R12', _validated_input),
             ('C05.R13', r13_memo), ('C05.R14', r14_consumers_read_only),
-            ('C05.R15', r15_layout_siblings_agree), ('C05.R16', r16_nonempty_is_not_long_enough)]
+            ('C05.R15', r15_layout_siblings_agree), ('C05.R16', r16_nonempty_is_not_long_enough),
+            # C05-ca: second pass without --prefixcount: the raw '6 password' line is segmented
+            ('C05.R17', _shared_rule('c19', 'r1_three_passes'))]
 
 
 META = {
